@@ -273,7 +273,15 @@ pub fn exit_sites(src: &str) -> Vec<ExitSite> {
                     i += 1;
                 }
             }
-            '(' => stack.push((K::Paren, false)),
+            '(' => {
+                // a method call `x.f(…)`: the receiver is an earlier argument
+                let mut j = i;
+                while j > 0 && (b[j - 1].is_alphanumeric() || b[j - 1] == '_') {
+                    j -= 1;
+                }
+                let method = j < i && j > 0 && b[j - 1] == '.';
+                stack.push((K::Paren, method));
+            }
             // a list literal creates the list handle before its first element
             '[' => stack.push((K::Paren, true)),
             '{' => {
@@ -382,6 +390,80 @@ fn balance_json(b: &Balance) -> Value {
 
 /// One script through both oracles. Returns the class signature.
 fn one_case(rep: &mut Report, drv: &mut Driver, src: &str, ret: Ret, origin: &str) {
+    one_case_glue(rep, drv, src, ret, origin, None)
+}
+
+/// The generated drop functions in the LIR of `src`, canonically: per function the list (one
+/// entry per variant block, or one for a record) of `offset/kind` of every drop it performs,
+/// `r` = a runtime drop function, `g` = a call of another generated drop function.
+fn lir_drop_functions(src: &str) -> Result<Vec<Vec<String>>, String> {
+    let rt = runtime();
+    let text = roto::verif_hooks::core::lower_to_mir(FileTree::test_file("c03.roto", src, 0), &rt)
+        .map_err(|e| format!("{e}"))?
+        .lower_to_lir()
+        .text();
+    let mut out: Vec<Vec<String>> = vec![];
+    let mut cur: Option<(Vec<String>, std::collections::HashMap<String, u64>, bool)> = None;
+    for line in text.lines() {
+        let l = line.trim();
+        if l.starts_with("fn ::generated::drop_") {
+            cur = Some((vec![], Default::default(), false));
+            continue;
+        }
+        let Some((blocks, offs, is_enum)) = cur.as_mut() else { continue };
+        if l == "}" {
+            let (mut blocks, _, is_enum) = cur.take().unwrap();
+            if is_enum && !blocks.is_empty() {
+                blocks.remove(0); // the block holding the switch
+            }
+            out.push(blocks);
+            continue;
+        }
+        if l.starts_with('.') {
+            blocks.push(String::new());
+            continue;
+        }
+        if l.starts_with("switch ") {
+            *is_enum = true;
+            continue;
+        }
+        let ptr = |offs: &std::collections::HashMap<String, u64>, v: &str| -> Option<u64> {
+            if v == "val" { Some(0) } else { offs.get(v).copied() }
+        };
+        if let Some((lhs, rhs)) = l.split_once(" = ptr::offset(val, ") {
+            if let Ok(o) = rhs.trim_end_matches(')').parse::<u64>() {
+                offs.insert(lhs.trim().to_string(), o);
+            }
+        } else if let Some(r) = l.strip_prefix("mem::drop(") {
+            let v = r.split(',').next().unwrap_or("").trim();
+            let e = match ptr(offs, v) { Some(o) => format!("{o}/r"), None => format!("?{v}/r") };
+            if let Some(b) = blocks.last_mut() { if !b.is_empty() { b.push(' '); } b.push_str(&e); }
+        } else if let Some(r) = l.strip_prefix("::generated::drop_") {
+            let v = r.split('(').nth(1).unwrap_or("").trim_end_matches(')').trim();
+            let e = match ptr(offs, v) { Some(o) => format!("{o}/g"), None => format!("?{v}/g") };
+            if let Some(b) = blocks.last_mut() { if !b.is_empty() { b.push(' '); } b.push_str(&e); }
+        } else if l.starts_with("return") || l.contains(": ") || l.is_empty() || l.contains("mem::read(") {
+        } else if let Some(b) = blocks.last_mut() {
+            // anything else inside a drop function is outside the model
+            if !b.is_empty() { b.push(' '); }
+            b.push_str(&format!("?{l}"));
+        }
+    }
+    Ok(out)
+}
+
+/// `D<i> v<k>: …` groups of the model's answer → per declaration the list of variant strings
+fn parse_shallow(ans: &str) -> std::collections::BTreeMap<usize, Vec<String>> {
+    let mut m: std::collections::BTreeMap<usize, Vec<String>> = Default::default();
+    for g in ans.split(" ; ") {
+        let Some((head, body)) = g.split_once(':') else { continue };
+        let Some(d) = head.trim().strip_prefix('D').and_then(|h| h.split(' ').next()).and_then(|d| d.parse::<usize>().ok()) else { continue };
+        m.entry(d).or_default().push(body.trim().to_string());
+    }
+    m
+}
+
+fn one_case_glue(rep: &mut Report, drv: &mut Driver, src: &str, ret: Ret, origin: &str, glue_nums: Option<(&[u64], &[bool])>) {
     let checked = match check_script(drv, src) {
         Ok(c) => c,
         Err(_) => {
@@ -428,12 +510,47 @@ fn one_case(rep: &mut Report, drv: &mut Driver, src: &str, ret: Ret, origin: &st
     }
     rep.hist("paths-per-program", format!("{}", sig.len().min(12)));
     let input = |i: &Inputs, b: &Balance| {
-        json!({"script": src, "ret": ret.name(), "inputs": {"n": i.n, "m": i.m, "c": i.c},
-               "balance": balance_json(b), "origin": origin})
+        let mut v = json!({"script": src, "ret": ret.name(), "inputs": {"n": i.n, "m": i.m, "c": i.c},
+               "balance": balance_json(b), "origin": origin});
+        if let Some((nums, reach)) = glue_nums {
+            v["glue_nums"] = json!(nums);
+            v["glue_reach"] = json!(reach);
+        }
+        v
     };
     let glue = origin.starts_with("glue");
     // token imbalance first, then heap imbalance
     let measured = bad.or(alloc_bad);
+    // drop / clone glue: what the Lean model of the generated functions (the loops as extracted
+    // from the current source) says about these declarations, and whether the generated
+    // functions in the real LIR are the model's
+    let mut model_says: Option<String> = None;
+    if let Some((nums, reach)) = glue_nums {
+        let ans = drv.ask(&format!("c03 glue-check {}", nums_line(nums)));
+        if !ans.starts_with("ok") && !ans.starts_with("mismatch") {
+            rep.mismatch("driver could not read the glue declarations", json!({"script": src, "answer": ans}));
+        }
+        if ans.starts_with("mismatch") {
+            model_says = Some(ans);
+        }
+        let shallow = parse_shallow(&drv.ask(&format!("c03 glue-shallow {}", nums_line(nums))));
+        match lir_drop_functions(src) {
+            Ok(fns) => {
+                for (d, variants) in &shallow {
+                    if !reach.get(*d).copied().unwrap_or(false) || variants.iter().all(|v| v.is_empty()) {
+                        continue;
+                    }
+                    rep.evaluations += 1;
+                    if !fns.iter().any(|f| f == variants) {
+                        rep.mismatch(
+                            &format!("no generated drop function in the LIR performs what the model computes for declaration {} ({}): the model of drops.rs is not faithful", d, variants.join(" | ")),
+                            json!({"script": src, "origin": origin, "model": variants, "lir": fns}));
+                    }
+                }
+            }
+            Err(e) => rep.mismatch("glue script does not lower to LIR", json!({"script": src, "error": e})),
+        }
+    }
     let describe = |b: &Balance| {
         if b.ok() {
             format!("heap allocations not balanced after the call (delta {:+}): a String or List leaked or was freed twice", b.allocs)
@@ -442,6 +559,11 @@ fn one_case(rep: &mut Report, drv: &mut Driver, src: &str, ret: Ret, origin: &st
         }
     };
     match (&measured, checked.rejects.first()) {
+        (None, None) if model_says.is_some() => {
+            rep.mismatch(
+                &format!("the glue model predicts a wrong release ({}) but every path balanced on the real code", model_says.clone().unwrap_or_default()),
+                json!({"script": src, "origin": origin}));
+        }
         (None, None) => {
             rep.class(if glue { format!("balanced-glue:{}", class_of_glue(origin, src)) } else { format!("balanced:{}", class_sig(src)) });
         }
@@ -455,9 +577,13 @@ fn one_case(rep: &mut Report, drv: &mut Driver, src: &str, ret: Ret, origin: &st
             // the MIR is justified by the verified checker: what is wrong is below it, in the
             // generated drop / clone functions of the declared types
             rep.violation(
-                &format!("drop/clone glue: {} for a value of the declared types ({}) on the path n={} m={} c={}; the MIR is accepted by the verified checker",
-                    describe(b), src.lines().filter(|l| l.starts_with("record") || l.starts_with("enum")).collect::<Vec<_>>().join("; "), i.n, i.m, i.c),
+                &format!("drop/clone glue: {} for a value of the declared types ({}) on the path n={} m={} c={}; the MIR is accepted by the verified checker; glue model on the current loops: {}",
+                    describe(b), src.lines().filter(|l| l.starts_with("record") || l.starts_with("enum")).collect::<Vec<_>>().join("; "), i.n, i.m, i.c,
+                    model_says.clone().unwrap_or_else(|| "no wrong release predicted".into())),
                 "drop-clone-glue", input(i, b));
+            if glue_nums.is_some() && model_says.is_none() {
+                rep.mismatch("imbalance measured on a glue program for which the model predicts exact release", input(i, b));
+            }
             rep.class("defect:drop-clone-glue".to_string());
         }
         (Some((i, b)), None) => {
@@ -540,6 +666,12 @@ fn table() -> Vec<(&'static str, Ret, String)> {
         ("clean-fstring-return", Ret::Str, f("String", "f\"a{name(t)}b{if c { return s } else { n }}c\"")),
         ("clean-fstring-return-nested", Ret::U32, f("u32", "let x = f\"a{match opt(t, c) { Some(y) => id(y), None => { return 7 } }}b{s}\"; slen(x)")),
         ("clean-fstring-in-loop-return", Ret::U32, f("u32", "let i = 0; while i < n { let x = f\"p{i}q{if i == m { return i } else { s }}\"; i = i + slen(x); } i")),
+        // several `?` in one function whose sets of live values differ (a value created between
+        // them; a value of an inner scope that is gone at the second)
+        ("clean-question-twice", Ret::OptTk, f("Tk?", "let a = maybe(c, n)?; let b = mk(id(a)); let d = maybe((m == 1), 2)?; Some(thru(b))")),
+        ("clean-question-inner-scope", Ret::OptTk, f("Tk?", "let a = { let z = mk(1); id(maybe(c, n)?) + id(z) }; let d = maybe((m == 1), a)?; Some(d)")),
+        ("clean-question-in-branches", Ret::OptTk, f("Tk?", "let a = if c { let z = mk(1); same(maybe((n == 1), 1)?, z) } else { false }; let y = mk(2); let d = maybe((m == 1), 2)?; if a { Some(y) } else { Some(d) }")),
+        ("clean-question-in-loop", Ret::OptTk, f("Tk?", "let i = 0; let acc = mk(0); while i < n { let e = maybe((i < m), i)?; acc = thru(e); i = i + 1; } Some(acc)")),
         // exits while other compiler-internal values are pending
         ("clean-for-return", Ret::U32, f("u32", "for e in many(n) { if id(e) == m { return 1; } } 0")),
         ("clean-match-scrutinee-return", Ret::U32, f("u32", "match E.B(s, t) { B(q, x) => { if c { return 1; } slen(q) + id(x) }, A(x) => id(x), C => 0 }")),
@@ -595,7 +727,8 @@ fn run_worker_batch(kind: &str, seed: u64, depth: u32, from: u64, n: u64) {
                     if kind == "glue" && index < from + 2 {
                         rep.sample(json!({"seed": seed, "index": index, "glue": g.describe()}));
                     }
-                    one_case(&mut rep, &mut drv, &g.script(), Ret::U32, &origin);
+                    let (nums, reach) = (g.nums(), g.reachable());
+                    one_case_glue(&mut rep, &mut drv, &g.script(), Ret::U32, &origin, Some((&nums, &reach)));
                 }
             }
             _ => {}
@@ -835,7 +968,10 @@ fn main() {
             let ret = Ret::parse(v["ret"].as_str().unwrap_or("u32")).expect("ret");
             let mut rep = Report::default();
             let mut drv = Driver::spawn().expect("lean driver");
-            one_case(&mut rep, &mut drv, src, ret, v["origin"].as_str().unwrap_or("replay"));
+            let nums: Option<Vec<u64>> = v["glue_nums"].as_array().map(|a| a.iter().filter_map(|x| x.as_u64()).collect());
+            let reach: Vec<bool> = v["glue_reach"].as_array().map(|a| a.iter().map(|x| x.as_bool().unwrap_or(false)).collect()).unwrap_or_default();
+            one_case_glue(&mut rep, &mut drv, src, ret, v["origin"].as_str().unwrap_or("replay"),
+                nums.as_ref().map(|n| (n.as_slice(), reach.as_slice())));
             rep.emit();
         }
         Some("worker") => {
